@@ -184,6 +184,20 @@ for _i in range(1, 21):
     NOT_APPLICABLE.setdefault('C%02d' % _i, 'not yet under contract in this revision of /verif (see DESIGN.md build order)')
 
 PROPS = {
+    'C05': {
+        'level_text': 'per encode/decode pair: complete Kani proof that Utf16Writer::write_len and string_length_parser are inverse for every usize length (and that lengths above 32767 are rejected, not truncated); Verus proof that ConnectionMatrix::cost reads the row-major cell right*num_left+left (the cell the compiler writes); BOUNDED Kani stand-in for CowArray::from_bytes (aligned and copied branch give the little-endian decoding, <= 4 elements)',
+        'level_note': 'NOT yet under contract: write_word_info / WordInfoParser::parse field order, UTF-16 payload, u32 arrays, the CSV reader, split-reference resolution, header, determinism of the whole compile; the bounded stand-in is reported separately and not counted as proved',
+        'verus': ['v_conn'],
+        'kani': ['k_len', 'k_cow'],
+        'assumptions': ['nom le_u8 / cond combinators', 'little-endian host for the aligned CowArray branch (Kani checks the compiled target)'],
+    },
+    'C04': {
+        'level_text': 'complete Kani proof that the four bit-field accessors of the double-array reader (Trie::has_leaf/value/label/offset) equal the dependency\'s own definitions (yada::unit::Unit) for all 2^32 units; Verus proof of the WordId packing (dictionary number / word number round trip, OOV test); BOUNDED Kani stand-in for the unaligned word-id-table reader',
+        'level_note': 'NOT yet under contract: TrieEntryIter::next against the abstract double-array semantics, index building (add / build_word_id_table / write_index), the flat_map/rev glue in Lexicon::lookup and LexiconSet::lookup, exact-surface filter; assumed: yada builder output represents the key->offset map',
+        'verus': ['v_wordid'],
+        'kani': ['k_unit', 'k_widt'],
+        'assumptions': ['yada::DoubleArrayBuilder::build yields an array representing exactly the key set', 'valid binary dictionary (da_valid)'],
+    },
     'C03': {
         'level_text': 'totality is decided function by function: every index, slice, unwrap, integer cast/overflow and converted debug assertion inside the real functions under contract on the analysis path (resolve_edits/add_replace, start_build/commit, Lattice::*, ConnectionMatrix::index/cost, concat_nodes/concat_oov_nodes, NodeSplitIterator::next, split_path, both path-rewrite plugins, fill_cat_continuity) is a discharged Verus obligation under the stated preconditions; the input limits are postconditions (start_build: error iff more than 49,149 bytes; commit: error only if a prefix of the edit batch exceeds 65,535 bytes; no truncation); CreatedWords is proved over its full domain by Kani',
         'level_note': 'known finding F10 (i32 path-cost overflow at cost extremes) is reported, not proved away; assumed: valid binary dictionary (trie array, id tables, word parameters inside the matrix), plugins built on regex engines, the preconditions that chain the units (edits_ok, path_ok, left-to-right insertion) are established by code not yet under contract (LatticeBuilder, plugin glue); Morpheme accessors and the trie/word-id-table readers are not yet under contract',
